@@ -396,6 +396,13 @@ MustNotRunSub ==
            f \in {g \in DirFiles(<< >>) : Doc(g.doc).typ = "layout"}}
 MustNotRun == MustNotRunTop \cup MustNotRunSub
 
+\* C08, "once an inspection does run, a non-zero exit status of its command makes verification fail" - whichever
+\* layout of the scenario (the top one or a delegated one, needed for the verdict or not) the inspection belongs to
+FailingInspections ==
+  UNION {{I.name : I \in {J \in SR(Doc(i).inspect) : ~(J.cmd.kind = "exit" /\ J.cmd.code = 0)}} :
+           i \in {j \in DOMAIN scn.docs : Doc(j).typ = "layout"}}
+C08Exit == verdict = "ok" => SR(ran) \cap FailingInspections = {}
+
 \* C08 as state invariants of the machine
 C08Order == \A i \in DOMAIN ran : ran[i] \notin MustNotRun
 C08Written == written \cap MustNotRun = {}
